@@ -79,6 +79,18 @@ var (
 	reTime     = regexp.MustCompile(`^[0-9]{4}-[0-9]{2}-[0-9]{2}T[0-9]{2}:[0-9]{2}:[0-9]{2}(\.[0-9]{1,9})?(Z|[+-][0-9]{2}:[0-9]{2})$`)
 )
 
+var maxInt64 = new(big.Int).SetUint64(1<<63 - 1)
+
+// fitsInt64: a canonical non-negative integer within the 64-bit signed range (what the docs call a number that
+// is an integer; beyond that range nothing is documented).
+func fitsInt64(s string) bool {
+	if !reCanonInt.MatchString(s) || len(s) > 19 {
+		return false
+	}
+	n, ok := new(big.Int).SetString(s, 10)
+	return ok && n.Cmp(maxInt64) <= 0
+}
+
 func ratOf(s string) *big.Rat {
 	s = strings.TrimSuffix(s, ".") // the grammar admits "10."
 	r, ok := new(big.Rat).SetString(s)
@@ -193,10 +205,10 @@ func evalValue(c gcond, v string) tri {
 		}
 		return b(v == c.Lit)
 	case "int":
-		if reCanonInt.MatchString(v) && len(v) <= 18 {
-			return b(cmpHolds(c.Op, ratOf(v).Cmp(ratOf(c.Lit))))
+		if fitsInt64(v) && fitsInt64(c.Lit) {
+			return b(cmpHolds(c.Op, ratOf(v).Cmp(ratOf(c.Lit)))) // exact integers, whatever their size
 		}
-		return triU // text, decimal value against an integer operand, huge number
+		return triU // text, decimal value against an integer operand, number beyond the 64-bit integers
 	case "float":
 		if (reCanonInt.MatchString(v) || reCanonDec.MatchString(v)) && len(v) <= 15 {
 			return b(cmpHolds(c.Op, ratOf(v).Cmp(ratOf(c.Lit))))
